@@ -636,11 +636,15 @@ func c18PanicSig(p any) string {
 	}
 	site := "?"
 	for _, line := range strings.Split(st, "\n") {
-		if strings.HasPrefix(line, "github.com/ollama/ollama/sample.") && !strings.Contains(line, "c18") && !strings.Contains(line, "Verif") {
-			site = strings.TrimPrefix(line, "github.com/ollama/ollama/")
-			if i := strings.LastIndex(site, "("); i > 0 {
-				site = site[:i]
-			}
+		if !strings.HasPrefix(line, "github.com/ollama/ollama/sample.") {
+			continue
+		}
+		name := strings.TrimPrefix(line, "github.com/ollama/ollama/")
+		if i := strings.LastIndex(name, "("); i > 0 {
+			name = name[:i] // drop the argument list (hex words in it must not be mistaken for harness names)
+		}
+		if !strings.Contains(name, "c18") && !strings.Contains(name, "Verif") {
+			site = name
 			break
 		}
 	}
